@@ -743,6 +743,28 @@ func TestCheck(t *testing.T) {
 		}
 	}
 	r.Set("exhaustive_small_scope", "all byte strings of length <= 2 per entry point (<= 3 for four entry points in the thorough tier)")
+	// (1b) committed corpus: replay + mutants through the matching entry points
+	nc := 0
+	for _, ce := range []struct {
+		sub     string
+		entries []string
+	}{{"v6", []string{"dhcpv6.FromBytes", "dhcpv6.MessageFromBytes", "dhcpv6.RelayMessageFromBytes"}}, {"v4", []string{"dhcpv4.FromBytes"}}, {"frame", []string{"rawconn.ReadFrom"}}, {"label", []string{"rfc1035label.FromBytes"}}} {
+		for i, b := range mon.Corpus(ce.sub) {
+			nc++
+			if !r.Mine(i) {
+				continue
+			}
+			rng := r.Rand("corpus."+ce.sub, i)
+			for _, e := range ce.entries {
+				run(r, e, 0, b, "corpus")
+			}
+			for k := 0; k < r.Pick(2, 30); k++ {
+				m := gen6.Mutate(rng, b, nil, nil)
+				run(r, ce.entries[rng.IntN(len(ce.entries))], 0, m, "corpus-mut")
+			}
+		}
+	}
+	r.Set("corpus_entries", nc)
 	// (2) generated / mutated / special inputs
 	n := r.Pick(150000, 5000000)
 	for i := 0; i < n; i++ {
